@@ -2,6 +2,7 @@
 runner that feeds the same operations to the real generated code and to the model driver."""
 import json
 import random
+import re
 
 from . import casing, common as c, corpus, gen
 
@@ -16,7 +17,22 @@ def get_corpus(ctx, n=None, tag=None, **kw):
     if key not in _cache:
         rng = random.Random(ctx.seed * 7919 + 17)
         progs = [corpus.gen_program(rng, i, **kw) for i in range(n)]
-        exes = corpus.build_corpus(tag, progs, nshards=16)
+        try:
+            exes = corpus.build_corpus(tag, progs, nshards=16)
+        except c.BuildError as e:
+            # valid generated programs that stop compiling are themselves concrete failing inputs:
+            # report them, drop them, and go on with the rest of the corpus
+            bad = sorted(set(re.findall(r"src/(p\d+)_mod\.rs", e.out)), key=lambda s: int(s[1:]))
+            if not bad or len(bad) > len(progs) // 2:
+                raise
+            by_id = {p["id"]: p for p in progs}
+            for pid in bad[:3]:
+                m = re.search(r"(error[^\n]*\n(?:[^\n]*\n){0,8}?[^\n]*%s_mod\.rs[^\n]*\n(?:[^\n]*\n){0,10})" % pid, e.out)
+                ctx.violation("valid-program-rejected", "generated program %s (valid on the pinned tree) no longer compiles: %s" % (
+                    pid, (m.group(1) if m else "")[:400].replace("\n", " | ")),
+                    {"program": corpus.render_module(by_id[pid]), "rustc": (m.group(1) if m else e.out[-2000:])})
+            progs = [p for p in progs if p["id"] not in bad]
+            exes = corpus.build_corpus(tag, progs, nshards=16)
         _cache[key] = (progs, exes)
     return _cache[key]
 
